@@ -30,7 +30,7 @@ def MAP(key, e):
 
 
 def F(name, t, omitzero=False, omitempty=False, string=False, casing=0):
-    return {"name": B(name), "t": t, "omitzero": omitzero, "omitempty": omitempty, "str": string, "casing": casing}
+    return {"name": [ord(ch) for ch in name], "t": t, "omitzero": omitzero, "omitempty": omitempty, "str": string, "casing": casing}
 
 
 def STRUCT(*fields):
@@ -63,6 +63,7 @@ HAND = [
     STRUCT(F("a", INT(8), omitzero=True), F("b", PTR(INT(8)), omitzero=True), F("c", PTR(INT(8)), omitempty=True)),
     STRUCT(F("x", ANY), F("y", ANY, omitempty=True), F("z", ANY, omitzero=True)),
     STRUCT(F("Ab", STR, casing=1), F("a_b", STR, casing=2), F("AB", STR)),
+    STRUCT(F("k", INT(8), casing=1), F("\u212a", STR), F("\u03c3x", BOOL, casing=1), F("S", STR, casing=2)),
     STRUCT(F("n", FLOAT, string=True), F("p", PTR(INT(16, False)), string=True), F("s", STR, string=True), F("b", BOOL, string=True)),
     STRUCT(F("bad", SLICE(INT(8)), string=True, omitempty=True), F("ok", INT(8))),
     STRUCT(F("m", MAP(STR, INT(8)), string=True), F("ok", INT(8))),
